@@ -104,6 +104,15 @@ Theorem C13_one_gap_poll_per_visit : forall (A : Type) (ops : app_ops A) (p : pa
 Proof. exact one_gap_poll_history. Qed.
 Print Assumptions C13_one_gap_poll_per_visit.
 
+(* C13_deadline_constant_in_visit (acceptor dpre / dpost): all polls of one visit in which applications
+   are asked see the same end_token_hold_time - the deadline of C13_visit_bounded is one number per
+   visit (computed by the first do_use_token of the visit, C13_deadline_as_coded). *)
+Theorem C13_deadline_constant_in_visit : forall (A : Type) (ops : app_ops A) (p : params) (f0 : fdl) (apps : list A)
+    (evs : list (event A)) (f : fdl) (apps' : list A) (h : list hitem),
+  fdl_new p = Ok f0 -> run A ops f0 apps evs = Ok (f, apps', h) -> accepts dpre dpost dst_init h.
+Proof. exact deadline_constant_history. Qed.
+Print Assumptions C13_deadline_constant_in_visit.
+
 (* ---------------------------------------------------------------------------------------------- *)
 (* The connection to the abstract rotation bound.  A `visit` records, for one token visit, the numbers
    the local theorems speak about; visit_ok = hold_ok (the conclusion of C13_hold_rule / C13_visit_bounded
@@ -141,3 +150,8 @@ Proof. exact hold_rejects_second_extra_round. Qed.
 Example C13_monitor_rejects_second_gap_poll :
   ~ accepts gpre gpost (mkG KPassToken 1) [HEnd 0 (stub_fdl (AwaitStatusResponse 9) 0)].
 Proof. exact gap_rejects_second_poll. Qed.
+
+Example C13_monitor_rejects_deadline_change :
+  ~ accepts dpre dpost (mkD KUseToken (Some 400) false)
+      [HCall (CallTransmit 0 false None); HEnd 100 (stub_fdl (UseToken 0 None true) 900)].
+Proof. exact deadline_rejects_change. Qed.
